@@ -2,7 +2,7 @@
 //
 // (1) register machine: registers a, b of one type T = static_integer<D,R,O,int8_t> or
 //     static_number<D,E,R,O,int8_t>; transitions a = T(a op b) for op in + - * /, a op= b, a = -a,
-//     ++a, --a, comparisons (observers). Every register value is directly constructible, so every
+//     ++a, --a, a++, a--, comparisons (observers). Every register value is directly constructible, so every
 //     state is initial and the complete transition relation (all states x all transitions) is executed.
 // (2) expression trees: all trees with <= 2 (thorough: 3, left chains and balanced) operator nodes over
 //     {+,-,*,/} and leaves a,b,c(,d); the compiler derives every intermediate type (they grow and are
@@ -451,6 +451,8 @@ template<class T, class RT, class OT>
             if constexpr (exp_of<T> <= 0) {
                 step("++a", va + Rat(Big(1)), [&] { T x = a; ++x; return x; });
                 step("--a", va - Rat(Big(1)), [&] { T x = a; --x; return x; });
+                step("a++", va + Rat(Big(1)), [&] { T x = a; x++; return x; });
+                step("a--", va - Rat(Big(1)), [&] { T x = a; x--; return x; });
             }
         }
     }
